@@ -55,6 +55,62 @@ func runC23(c *Ctx) {
 		}
 	})
 
+	if c.Thorough() {
+		// discovery pass: every first-party function that reads fixed-width big/little-endian fields from a byte slice
+		// (encoding/binary UintN) is held to the same bounds rule, not only the decoders listed above
+		c.Rule("bounds-module-wide", func() {
+			c.P.BuildSSA()
+			listed := map[string]bool{}
+			for _, name := range decoders {
+				listed[c.Func("internal/net", name).String()] = true
+			}
+			for _, d := range c25Decoders {
+				listed[c.Func(d.pkg, d.name).String()] = true
+			}
+			seen := map[*types.Func]bool{}
+			n := 0
+			for _, pk := range c.P.Pkgs {
+				for _, file := range pk.Syntax {
+					for _, decl := range file.Decls {
+						fd, ok := decl.(*ast.FuncDecl)
+						if !ok || fd.Body == nil {
+							continue
+						}
+						reads := false
+						ast.Inspect(fd.Body, func(nd ast.Node) bool {
+							if call, ok := nd.(*ast.CallExpr); ok {
+								if cal := callee(pk.TypesInfo, call); cal != nil && cal.Pkg() != nil && cal.Pkg().Path() == "encoding/binary" && strings.HasPrefix(cal.Name(), "Uint") {
+									reads = true
+								}
+							}
+							return true
+						})
+						obj, _ := pk.TypesInfo.Defs[fd.Name].(*types.Func)
+						if !reads || obj == nil || seen[obj] {
+							continue
+						}
+						seen[obj] = true
+						fn := c.fnOfObj(obj)
+						if fn == nil || listed[fn.String()] {
+							continue
+						}
+						n++
+						sf := c.SSA(fn)
+						for _, r := range newArith(c, sf).checkBounds() {
+							key := "discovered/" + fn.String() + "/" + r.what
+							if r.ok {
+								c.Ok(key, "entailed by the dominating guards for every input", c.P.Pos(r.where))
+							} else {
+								c.Bad(key, "every access to the input buffer is in bounds for every input", c.P.Pos(r.where), r.detail)
+							}
+						}
+					}
+				}
+			}
+			c.Ok("scanned", "wire-reading functions outside the listed decoders: "+itoa(n), "-")
+		})
+	}
+
 	c.Rule("layout", func() {
 		pairs := []struct{ w, r string }{
 			{"ProtoSerializer.MarshalBinaryTo", "ProtoSerializer.UnmarshalBinary"},
